@@ -288,7 +288,7 @@ pub fn minimise_crash(t: &Trace, mask: u32, exe: &std::path::Path, vd: &str, bud
         if std::fs::write(&tmp, j.compact()).is_err() {
             return false;
         }
-        let st = Command::new(exe).args(["replay", &tmp, "--quiet"]).stdout(Stdio::null()).stderr(Stdio::null()).status();
+        let st = Command::new(exe).args(["replay", &tmp, "--quiet"]).env("VERIF_WATCHDOG", "4").stdout(Stdio::null()).stderr(Stdio::null()).status();
         match st {
             Ok(s) => s.code() == Some(101) || s.code().is_none(),
             Err(_) => false,
